@@ -315,9 +315,10 @@ func writeStr(s string, b *strings.Builder, isKey bool) {
 		b.WriteString(s)
 	} else {
 		// Quote empty strings or that contain special characters.
-		// We cannot use strconv.Quote because we only want to escape " characters,
+		// We cannot use strconv.Quote because we only want to escape \ and " characters,
 		// but not \n, \t, etc.
-		escapedStr := strings.ReplaceAll(s, `"`, `\"`)
+		escapedStr := strings.ReplaceAll(s, `\`, `\\`)
+		escapedStr = strings.ReplaceAll(escapedStr, `"`, `\"`)
 		b.WriteString(`"` + escapedStr + `"`)
 	}
 }
